@@ -383,8 +383,15 @@ func (fx *fnExec) cellValue(c ssa.Value) SV {
 	fx.curR = tTrue
 	// deterministic names: the same captured variable / global read lazily in two states denotes the same value
 	prefix := "fv$" + san(c.Name())
-	if _, isG := c.(*ssa.Global); isG {
+	if g, isG := c.(*ssa.Global); isG {
 		prefix = fmt.Sprintf("gl%d$%s", fx.st.epoch, san(c.Name()))
+		if g.Pkg != nil && g.Pkg.Pkg.Path() == "io" && (g.Name() == "EOF" || g.Name() == "ErrUnexpectedEOF") {
+			// the sentinel errors of package io are never reassigned: one constant each, whatever happened to the heap
+			v := Sc{fx.ioSentinel(g.Name()), t}
+			fx.st.cells[c] = v
+			fx.curR = saveR
+			return v
+		}
 	}
 	v := fx.build(t, func(l leaf) Term {
 		n := prefix + san(l.suffix)
@@ -1744,4 +1751,15 @@ func (fx *fnExec) bindPhis(env *SpecEnv, li *loopInfo, from *ssa.BasicBlock) {
 			}
 		}
 	}
+}
+
+// ioSentinel: io.EOF / io.ErrUnexpectedEOF as distinct non-nil error constants.
+func (fx *fnExec) ioSentinel(name string) Term {
+	fx.declare("io.EOF", SInt)
+	fx.declare("io.ErrUnexpectedEOF", SInt)
+	if !fx.declared["$iosent"] {
+		fx.declared["$iosent"] = true
+		fx.assumps = append(fx.assumps, "(assert (and (not (= io.EOF 0)) (not (= io.ErrUnexpectedEOF 0)) (not (= io.EOF io.ErrUnexpectedEOF))))")
+	}
+	return Term{"io." + name, SInt}
 }
